@@ -1,16 +1,53 @@
 SPEC = {
     "claimed": True,
     "gen": ["huffman"],
-    "theorems": ["C07_builtin_table", "C07_consts", "C07_builtin_wf", "C07_roundtrip", "C07_roundtrip_vec",
-                 "C07_spec", "C07_len", "C07_decoder_total", "C07_builtin_is_built",
+    "theorems": ["C07_builtin_table", "C07_consts", "C07_builtin_wf", "C07_roundtrip", "C07_builtin_roundtrip", "C07_roundtrip_vec",
+                 "C07_spec", "C07_len", "C07_decoder_total", "C07_ref_compress", "C07_builtin_tree", "C07_ref_decompress",
+                 "C07_builtin_is_built",
                  "C07_from_frequencies_total_refuted", "C07_nonvacuous"],
     "allowed_axioms": [],
     "extract": {
         "LibTw2.Model.Huffman": ["of_list", "compress", "compress_into_vec", "compressed_len", "compressed_len_bug",
                                  "decompress", "dec_fuel", "decompress_into_vec", "from_frequencies", "wf_table",
                                  "repr_of"],
+        "LibTw2.Model.HuffmanRef": ["ref_compress", "ref_decompress", "tree_table"],
         "LibTw2.Gen.HuffTable": ["teeworlds_table"],
     },
     "components": [{"bin": "huffman", "driver": "drv_huffman", "timeout": {"quick": 600, "thorough": 3000}}],
     "release": False,
+    "rule": "see components.huffman.rule",
+    "trusted_base": [
+        "Model/Huffman.v is hand-written from huffman/src/lib.rs (compress_impl_unsafe, decompress_unsafe, "
+        "compressed_len*, the Vec wrappers, from_frequencies_array); the table is a length plus a PositiveMap "
+        "behind `lookup` (C07_builtin_table ties it to the node list of teeworlds.rs)",
+        "tools/gen_huffman.py regenerates the built-in table, data/frequencies and the literals of lib.rs "
+        "(C07_consts) on every run and raises on any unexpected line",
+        "Model/HuffmanRef.v (C++ CHuffman::Compress / Decompress / the decode LUT) is hand-written from "
+        "huffman.cpp and run against the real C++ (crate libtw2-huffman-reference) on the rcomp / rdec cases; that "
+        "the C++ reference holds the same code words as the table is checked by the harness, not proved",
+    ],
+    "assumptions": [
+        "input bytes are u8 (bytes_ok)",
+        "the table satisfies the decidable check wf_table: proved for the built-in table (C07_builtin_wf, vm_compute); "
+        "for tables from Huffman::from_frequencies it is evaluated by the extracted checker on every table the "
+        "harness builds (certified checking), not proved for all frequency vectors",
+        "usize arithmetic of compressed_bit_len does not wrap (inputs below 2^64 / 24 bytes)",
+        "C07_ref_compress: the C++ side holds the same (bits, num_bits) per symbol as the table and its buffer has "
+        "at least one byte; the frequency sum stays below 2^31 (the reference keeps frequencies in a C int)",
+    ],
+    "explanation": "theorems quantify over every well-formed table, every byte string, every capacity and every tail "
+                   "(induction, not enumeration): round trip for both output forms, exact predicted lengths = exact "
+                   "capacity need, decoder total with an explicit fuel bound / never above the capacity / capacity "
+                   "error only, C++ Compress byte-identical to compress_bug; the built-in table is well-formed and is "
+                   "what from_frequencies builds from data/frequencies (vm_compute on the regenerated data). "
+                   "The model is tied to huffman/src/lib.rs and to the C++ reference by running all three on the same "
+                   "cases (every string of length <= 2 as compressor and as decoder input, structured and random up to "
+                   "8 KiB, truncations, tails, garbage, capacities 0..len+1, tables from random frequency vectors).",
+    "level_text": "proof for all inputs over every well-formed table (built-in table proved well-formed; other tables "
+                  "checked one by one with the verified checker); agreement with the C++ decoder by differential "
+                  "testing only",
+    "level_note": "K07 (known finding): Huffman::from_frequencies panics for every frequency vector whose tree is higher "
+                  "than 24 (e.g. 26 or more zero counts, all u32::MAX) - C07_from_frequencies_total_refuted; the codec "
+                  "theorems hold for every table that is built. C07_ref_decompress (C++ decoder as a Gallina model) is "
+                  "not proved: harness correspondence only.",
 }
